@@ -37,9 +37,13 @@ BigVals == {WideA(n, x) : n \in {999, 1000, 1001, 5001, 10000, 10001, 12000}, x 
            \cup {WideO(n, x) : n \in {300, 301}, x \in {VNum(N_one), VNull}} \cup {WideORev(n, VNum(N_one)) : n \in {300, 301}}
            \cup {LongS(n, c) : n \in {255, 256, 257, 5000}, c \in {97, 98}}
 \* every pair of catalogue numbers (tolerance boundaries at +1, -1, -2, 1.75, 2^52, 1e300, the int range, zero, non-finite), bare and inside an array
+\* objects of four members in every member order with every choice of two values: permutation and mutation combined
+Keys4 == <<<<97>>, <<98>>, <<99>>, <<100>>>>
+Perms4 == {p \in [1..4 -> 1..4] : \A i, j \in 1..4 : i # j => p[i] # p[j]}
+Perm4Objs == {VObj([i \in 1..4 |-> <<Keys4[p[i]], VNum(IF vals[p[i]] = 1 THEN N_one ELSE N_zero)>>]) : p \in Perms4, vals \in [1..4 -> {0, 1}]}
 AllNums == {VNum(n) : n \in NumIds} \cup {VArr(<<VNum(n)>>) : n \in NumIds}
 Universe(cs0) == IF Tier = "quick" THEN Scal(NumsQ) \cup L1(cs0)
-                 ELSE IF Tier = "nums" THEN AllNums ELSE IF Tier = "fold" THEN {VNull}
+                 ELSE IF Tier = "nums" THEN AllNums ELSE IF Tier = "fold" THEN {VNull} ELSE IF Tier = "perm4" THEN Perm4Objs
                  ELSE IF Tier = "big" THEN BigVals
                  ELSE Scal(NumsT) \cup L1(cs0) \cup L2(cs0)
 
